@@ -317,7 +317,13 @@ var jsonScalars = []string{"null", "true", "false", "0", "-1", "1.5", "1e3", `""
 var hostileNumbers = []string{"1e999999999", "-1e999999999", "1e-999999999", "1e400", "0.1e-400", "-0", "00", "01", "1.", ".5", "1e", "1e+", "--1", "+1", "0x10", "1_000",
 	"123456789012345678901234567890123456789012345678901234567890123456789012345678901234567890",
 	"0.0000000000000000000000000000000000000000000000000000000000000000000000000000000000000000000000000000001",
-	"18446744073709551616", "-9223372036854775809", "NaN", "Infinity", "1e2147483647", "1e2147483648", "1e-2147483649", "9e99999999999999999999"}
+	"18446744073709551616", "-9223372036854775809", "NaN", "Infinity", "1e2147483647", "1e2147483648", "1e-2147483649", "9e99999999999999999999",
+	// number-like text in a STRING token (the number decoders accept strings)
+	`"NaN"`, `"nan"`, `"NAN"`, `"Inf"`, `"-inf"`, `"Infinity"`, `"+Infinity"`, `"0x10"`, `"0b1"`, `"1_000"`, `" 1"`, `"1 "`, `"1e5"`, `"\u0661"`, `""`, `"1e999999999"`, `"0x1p-2"`, `"1e"`}
+
+// numberTexts are texts a number parser may or may not accept, for string
+// items placed where a number is expected.
+var numberTexts = []string{"NaN", "nan", "NAN", "Inf", "-inf", "+Inf", "Infinity", "0x10", "0b1", "1_000", " 1", "1 ", "1e5", "\u0661", "", "1e999999999", "0x1p-2", "1e", "-0", "1.5"}
 
 var hostileStrings = []string{`"\ud800"`, `"\udc00\ud800"`, `"\u0000"`, `"\x"`, `"\`, `"\u12"`, "\"\xff\xfe\"", "\"\xc3\"", "\"a\xcc\x81\"", "\"\xe2\x84\xab\"", `"é"`, `"😀"`,
 	`"type"`, `"value"`, `"dynamic"`, `"list"`, "\"\n\"", `"\/"`, `"` + "\t" + `"`}
@@ -580,11 +586,29 @@ func msgpackOp(t *rapid.T, b, other []byte) ([]byte, string) {
 			sized = append(sized, i)
 		}
 	}
-	op := rapid.IntRange(0, 10).Draw(t, "mop")
+	op := rapid.IntRange(0, 11).Draw(t, "mop")
 	if len(sized) == 0 && op <= 3 {
 		op = 4 + op%3
 	}
 	switch op {
+	case 11: // a scalar item replaced by a string item holding number-like text (the number decoder accepts strings)
+		var scalars []int
+		for i, it := range items {
+			if it.Kind == 'x' && !it.InExt && it.Off+it.Hdr <= len(b) {
+				scalars = append(scalars, i)
+			}
+		}
+		if len(scalars) == 0 {
+			return genericOp(t, b, other)
+		}
+		it := items[rapid.SampledFrom(scalars).Draw(t, "scalar")]
+		txt := rapid.SampledFrom(numberTexts).Draw(t, "numtext")
+		k := byte('s')
+		if rapid.IntRange(0, 3).Draw(t, "asbin") == 0 {
+			k = 'b'
+		}
+		return splice(b, it.Off, it.Off+it.Hdr, append(mpMakeHeader(k, uint32(len(txt)), false, 0), txt...)), "scalar-to-numtext"
+
 	case 10: // re-spell a string (map key, attribute name, value) in a canonically equivalent form, in place or over ANOTHER string item (both spellings present)
 		var ss []int
 		for i, it := range items {
